@@ -79,3 +79,53 @@ Example C06_nonvacuous :
   end = true /\
   pair_up ["a"; "b"; "c"; "d"] ["x"; "y"] true = Ok [("a", "x"); ("b", "x"); ("c", "y"); ("d", "y")].
 Proof. vm_compute. auto. Qed.
+
+(* Part 3: a link that names a direction occupies exactly that numbered port, on the input side (direction
+   named at the link's destination end) and on the output side (direction named at its source end) -- for
+   every router of every description.  With array_edges (mesh links carry their compass direction at both
+   ends) mesh links occupy the port of their compass direction. *)
+From FV Require Import Netlist Compile Side WireProofs.
+Theorem C06_model_named_port :
+  forall d g rt rid r, compile_router d g rt rid = Ok r ->
+    (forall e k, In e (filter is_link (edges_to g (n_name rt))) -> e_dst_dir e = Some k -> 0 <= k ->
+       nth_error (cr_in r) (Z.to_nat k) = Some (Some (epair e))) /\
+    (forall e k, In e (filter is_link (edges_from g (n_name rt))) -> e_src_dir e = Some k -> 0 <= k ->
+       nth_error (cr_out r) (Z.to_nat k) = Some (Some (epair e))).
+Proof. intros d g rt rid r H. split; [exact (dir_in_slot d g rt rid r H)|exact (dir_out_slot d g rt rid r H)]. Qed.
+Print Assumptions C06_model_named_port.
+
+(* Part 4: exactly the described links.  For every description: the link edges of the graph that build
+   accepts are, in declaration order, the links of the router descriptors (four-neighbour links of an
+   auto-connected array, parent-child links of an auto-connected tree, nothing otherwise) followed by the
+   links of the connection entries: both directions of every pair that pair_up forms from the source and
+   destination selections, with the named directions -- nothing more and nothing less (build_links); and the
+   emitted top module declares one request and one response signal (and, narrow-wide, one wide signal) for
+   exactly these link edges (emitted_signals_iff). *)
+From FV Require Import Routing Emit ModelBase ModelProofs.
+Theorem C06_model_links_exact :
+  forall d g, build d = Ok g ->
+    exists Ls, Forall2 (fun c L => conn_spec d g c = Ok L) (d_conns d) Ls /\
+               link_edges_of g = flat_map router_links (d_rts d) ++ concat Ls.
+Proof. exact build_links. Qed.
+Print Assumptions C06_model_links_exact.
+
+Theorem C06_model_signals_exact :
+  forall d g c ri n, build d = Ok g -> compile d g = Ok c -> emit c ri = Ok n ->
+    forall ty name, In (ty, name) (n_links n) <->
+      exists e, In e (link_edges_of g) /\
+        ((ty, name) = ("floo_req_t", req_name (e_src e, e_dst e)) \/ (ty, name) = ("floo_rsp_t", rsp_name (e_src e, e_dst e)) \/
+         (d_nw d = true /\ (ty, name) = ("floo_wide_t", wide_name (e_src e, e_dst e)))).
+Proof.
+  intros d g c ri n Hb Hc He ty name.
+  destruct (emit_inv _ _ _ He) as (_ & axi & rts & _ & _ & ->). cbn [n_links]. unfold emit_links.
+  destruct (compile_desc d g c Hc) as (Hcd & Hcg). rewrite Hcd, Hcg.
+  rewrite in_flat_map. split.
+  - intros (e & Hin & Hs). apply filter_In in Hin. destruct Hin as (Hv & Hl).
+    exists e. split; [apply filter_In; split; [apply (edges_view_In g e (proj2 (build_ginv d g Hb))); exact Hv|exact Hl]|].
+    cbn in Hs. destruct Hs as [Hs|[Hs|Hs]]; [left; auto|right; left; auto|].
+    destruct (d_nw d); [destruct Hs as [Hs|[]]; right; right; auto|destruct Hs].
+  - intros (e & Hin & Hs). apply filter_In in Hin. destruct Hin as (Hg & Hl). exists e. split.
+    + apply filter_In. split; [apply (edges_view_In g e (proj2 (build_ginv d g Hb))); exact Hg|exact Hl].
+    + cbn. destruct Hs as [Hs|[Hs|(Hnw & Hs)]]; [left; auto|right; left; auto|]. rewrite Hnw. right. right. left. auto.
+Qed.
+Print Assumptions C06_model_signals_exact.
